@@ -60,11 +60,22 @@ def tie_tables(ctx, ok_x):
     cells = table_cells()
     res = run_impl([t for _, t in cells], chunk=60)
     impl = [static_of_cell(r) for r in res]
+    # the same cells are also C14 instances on the implementation: static type vs class at run time
+    for (cell, text_), r in zip(cells, res):
+        for k, s in r["static"].items():
+            if k in r["dynamic"] and not agrees(s, r["dynamic"][k]):
+                vlib.report_failure(ctx, "C14/type:cell:" + "/".join(cell), f"static type {s} at {k}, run time {r['dynamic'][k]}",
+                                    dict(case=dict(kind="strict-program", family="table-cell", cell=list(cell), source_text=text_)))
+        if r["type_errors"] == 0 and r["restrictions"] == 0 and r["dynamic_outcome"] != "ok":
+            vlib.report_failure(ctx, "C14/raise:cell:" + "/".join(cell), f"accepted statically, abstract execution: {r['dynamic_outcome']}",
+                                dict(case=dict(kind="strict-program", family="table-cell", cell=list(cell), source_text=text_)))
+
     if not ok_x:
         return
     head = ("From Coq Require Import ZArith List String Bool.\nFrom NadaV.PyMini Require Import PyMini.\n"
             "From NadaV.Gen Require GenAbstract GenAudit.\nFrom NadaV.Model Require Import Rules StaticRules.\n"
-            "From NadaV.Proofs Require Import C14Proofs.\nImport ListNotations.\nOpen Scope string_scope.\n"
+            "Import ListNotations.\nOpen Scope string_scope.\n"
+            "Definition GS : genv := static_genv GenAbstract.classes GenAudit.static_funs.\n"
             "Definition show (s : sres) : string := match s with SType t => class_of t | SError _ => \"<error>\" | SOther w => \"<other>\" end.\n"
             "Fixpoint bad (l : list (sres * string)) (i : Z) : list Z := match l with [] => [] | (s, w) :: r => "
             "if String.eqb (show s) w then bad r (i + 1)%Z else i :: bad r (i + 1)%Z end.\n")
@@ -89,15 +100,6 @@ def tie_tables(ctx, ok_x):
     if mism:
         ctx.broken.append(dict(kind="correspondence", what="static-rule model and the real checker disagree",
                                detail=json.dumps([[list(cells[i][0]), impl[i]] for i in mism[:5]])))
-    # the same cells are also C14 instances on the implementation: static type vs class at run time
-    for (cell, text_), r in zip(cells, res):
-        for k, s in r["static"].items():
-            if k in r["dynamic"] and not agrees(s, r["dynamic"][k]):
-                vlib.report_failure(ctx, "C14/type:cell:" + "/".join(cell), f"static type {s} at {k}, run time {r['dynamic'][k]}",
-                                    dict(case=dict(kind="strict-program", family="table-cell", cell=list(cell), source_text=text_)))
-        if r["type_errors"] == 0 and r["restrictions"] == 0 and r["dynamic_outcome"] != "ok":
-            vlib.report_failure(ctx, "C14/raise:cell:" + "/".join(cell), f"accepted statically, abstract execution: {r['dynamic_outcome']}",
-                                dict(case=dict(kind="strict-program", family="table-cell", cell=list(cell), source_text=text_)))
 
 
 def agrees(static, dyn):
